@@ -1206,6 +1206,13 @@ def build_model(
                 + '\n'.join('    {x}' for x in failed_execs)
             ) from e
 
+        # Each `Symbol` executes on its own: the statements fail only in
+        # combination, so there is still no class to return
+        raise BuildError(
+            'Failed to `exec`ute the model definition, although each '
+            '`Symbol` object with an equation executes individually'
+        ) from e
+
     # Otherwise, if here, assign the original code to an attribute and return
     # the class
     locals_['Model'].CODE = model_definition_string
